@@ -91,6 +91,30 @@ CHECKS = {
     "C41": ("mc-utils", E1, "exhaustive enumeration (E1) of all short sequences of instruction groups x limits x flags against label bookkeeping and real serialization",
             "Every sequence of up to 3 (thorough 4) parallel groups from 9 shapes x instruction limits x size limits x payer-change flag x lookup table: after add+optimize the labelled instructions are neither dropped, duplicated nor reordered, atomic groups unsplit, merges only between mergeable groups, payer rule kept, limits respected and the size estimate is not below the bincode size of the built transaction.",
             "shapes and limits listed in the evidence", "§5 C41"),
+    "C22": ("mc-store", MC, "explicit-state BFS (E3) over real store instructions in the in-process runtime, invariant after every successful instruction",
+            "All interleavings to the stated depth of create/execute/close of deposits and withdrawals by owners, the keeper and a stranger with clock advances and feed re-publication, over two markets sharing both vaults (plus seeded liquidity): after every successful instruction each market's recorded balances cover liquidity+impact+fees and collateral, and the sum over markets sharing a vault does not exceed the vault's token balance.",
+            "svm-lite runtime trusted; swaps, shifts, position orders, liquidations and fee claims are not in the action alphabet yet", "§6 C22"),
+    "C23": ("mc-store", MC, "explicit-state BFS (E3) over real store instructions in the in-process runtime against the action-lifecycle protocol",
+            "Same exploration as C22: the action-state transition relation (Pending->Completed/Cancelled exactly once, terminal absorbing), who may execute/close in which state, escrow contents returned to the owner on close, consumed escrow on completion, execution-fee and rent refunds, and untouched markets/vaults/escrow after a cancelled execution are checked on every transition.",
+            "deposits and withdrawals only (orders, shifts and GLV actions share the Close/ActionHeader code but are not explored)", "§6 C23"),
+    "C24": ("mc-store", E1, "exhaustive product enumeration (E1) of the real PriceValidator/SmallPrices against the statement in i128",
+            "Age/future rules over boundary clocks, timestamps, adjustments, max ages and future excesses at the i64/u64 limits; deviation rule and well-formedness through the validate_one + SmallPrices::from_price pipeline over dense prices, references, factors and multipliers; timestamp-range rule over pairs/triples of validated timestamps.",
+            "the provider/feed clause and clear-after-use live in instruction handlers and are not covered here", "§5 C24"),
+    "C25": ("mc-store", MC, "explicit-state BFS (E2) over PriceFeed::update sequences against a reference feed",
+            "Every sequence of updates to the stated depth over timestamps around the stored one and the clock, ordered/inverted price triples, clock/slot steps, strict/idempotent mode and future excess; outcome, stored state, bytes unchanged on rejection, monotone timestamp and min<=price<=max in every state.",
+            "alphabets and depth", "§5 C25"),
+    "C29": ("mc-store", E1, "exhaustive product enumeration (E1) of try_adjust_price_with_max_deviation_factor composed with the acceptance pipeline",
+            "Every (min, max) of a dense grid x reference (explicit or mid) x multiplier x deviation factor: an adjusted price that the validator and SmallPrices accept lies in reference +- deviation with 0 < min <= max; in-band bounds are untouched; out-of-band bounds are moved into the band whenever the band holds a representable value.",
+            "factors have the token config's 10^12 granularity", "§5 C29"),
+    "C30": ("mc-store", MC, "explicit-state BFS (E2) over GT operations on the real GtState/UserHeader/GtExchangeVault against a reference ledger",
+            "Every sequence of mint/burn/exchange request/confirm/new vault/clock advance over three users and three rank tables to the stated depth: supply = sum of balances, total minted monotone, minting cost = floor-iterated growth of total minted only, rank = thresholds at or below balance, get_mint_amount = whole units at the current cost, window rules.",
+            "failed operations are rolled back by the harness (transaction atomicity on chain)", "§5 C30"),
+    "C31": ("mc-store", E1, "exhaustive enumeration (E1) of ranks x referral x factor tables on program and SDK over identical bytes",
+            "Store::order_fee_discount_factor (program) and the SDK copy for every rank 0..17, referred or not, three rank tables, per-rank factors and referral discounts from {0,1,10%,50%,100%-1,100%} and beyond: range, monotonicity in referral, closed form within one unit, rejection above the maximum rank, equality of both implementations; the setter rejects factors above 100%.",
+            "alphabets only", "§5 C31"),
+    "C32": ("mc-store", E1, "exhaustive product enumeration (E1) of the builder-fee helpers against exact big-integer arithmetic",
+            "compute/clamp/charge-on-increment/estimate-for-withdrawal over boundary and dense sizes x factors x min/max prices x increments x withdrawals x swap types: fee = ceil(floor(size*factor/UNIT)/price_min), split exact or refused, estimate = withdrawal + fee.",
+            "settlement (settle_builder_fee instruction) is not explored yet; helper functions only", "§5 C32"),
 }
 
 NOT_YET = "no check built yet in this round (planned in DESIGN.md); not claimed"
